@@ -23,9 +23,9 @@ MANIFEST = {
 }
 
 OPS = {'add': 0, 'sub': 1, 'mul': 2, 'div': 3, 'fma': 4, 'sqrt': 5, 'neg': 6, 'fabs': 7, 'copysign': 8, 'fdim': 9,
-       'floor': 10, 'ceil': 11, 'trunc': 12, 'roundint': 13, 'fmod': 14, 'remainder': 15, 'mod': 16}
+       'floor': 10, 'ceil': 11, 'trunc': 12, 'roundint': 13, 'fmod': 14, 'remainder': 15, 'mod': 16, 'nearbyint': 17}
 ARITY = {'add': 2, 'sub': 2, 'mul': 2, 'div': 2, 'fma': 3, 'sqrt': 1, 'neg': 1, 'fabs': 1, 'copysign': 2, 'fdim': 2,
-         'floor': 1, 'ceil': 1, 'trunc': 1, 'roundint': 1, 'fmod': 2, 'remainder': 2, 'mod': 2}
+         'floor': 1, 'ceil': 1, 'trunc': 1, 'roundint': 1, 'fmod': 2, 'remainder': 2, 'mod': 2, 'nearbyint': 1}
 
 
 def run(ck):
@@ -73,6 +73,8 @@ def run(ck):
                 vals.append(('fin', s, e, c))
         vals += [('fin', s, -4, 1), ('fin', s, 3, 5), ('fin', s, -7, 77)]
     vals += [('inf', False), ('inf', True), ('nan', False)]
+    rint_vals = [('fin', s, -12, c) for s in (False, True) for c in (2049, 6143, 6145, 10239, 10241, 4095, 4097, 8193, 12287, 14337, 2047)] + \
+                [('fin', s, -3, c) for s in (False, True) for c in range(1, 40)]
     small = [v for v in vals if v[0] != 'fin' or v[3] in (0, 4, 5, 7, 1) and v[2] in (0, -1, -2, -4)]
 
     ctxs = []
@@ -100,12 +102,14 @@ def run(ck):
             ar = ARITY[name]
             fn = getattr(ops, name)
             pool = vals if ar <= 2 else small
+            if ar == 1 and name in ('floor', 'ceil', 'trunc', 'roundint', 'nearbyint'):
+                pool = vals + rint_vals
             if ar == 2 and not thorough and (d.get('rm', 'RNE') not in ('RNE', 'RTN') or d['kind'] not in ('mpfloat', 'mpsfloat', 'real')):
                 pool = small
             for args in itertools.product(pool, repeat=ar):
                 fargs = [mkf(a) for a in args]
                 r = attempt(lambda: fn(*fargs, ctx=ctx))
-                if isinstance(r, NotImplementedError):
+                if isinstance(r, NotImplementedError) or (name == 'nearbyint' and d['kind'] == 'real'):
                     not_offered += 1
                     continue
                 special = any(a[0] != 'fin' or a[3] == 0 for a in args)
